@@ -54,6 +54,34 @@ def split_checks(out, tier):
                 cls = "other"
             out.report({"kind": "group-key-wrong", "function": k, "class": cls},
                        {"nodeid": nid, "expected": exp, "got": got}, {"function": k, "nodeid": nid})
+    # ---- the worker's half: the id a marked test gets, and the key the controller reads back from it
+    gm = []
+    for _ in range(300 if tier == "quick" else 8000):
+        path = "/".join(rnd.choice(["pkg", "sub", "test_m.py", "svc@v2", "t@x.py", "a]b"]) for _ in range(rnd.randint(1, 3)))
+        func = rnd.choice(["test_f", "test_g"]) + rnd.choice(["", "", "[a]", "[x@y]", "[alice@example.org]", "[a::b]", "[p]q"])
+        nid = "::".join([path] + [rnd.choice(["TestK", "Inner"]) for _ in range(rnd.choice([0, 0, 1]))] + [func])
+        r = rnd.random()
+        g = rnd.choice(["grp", "g1", "a b", "db", "default", "x.y", "a]b", "u@v"])
+        mark = [] if r < 0.3 else [[g], []] if r < 0.6 else [[], [g]] if r < 0.8 else [[], []] if r < 0.9 else [[g, "other"], ["kw"]]
+        gm.append([int(rnd.random() < 0.85), nid, mark])
+    gres = run_jobs("drive_sched.py", [{"kind": "groupmark", "cases": gm[i:i + 200]} for i in range(0, len(gm), 200)], nproc=4)
+    gflat = [x for chunk in gres for x in (chunk if isinstance(chunk, list) else [])]
+    corr.compare("pytest_collection_modifyitems + _split_scope (loadgroup, worker and controller halves)", "groupmark", gm, gflat,
+                 nontrivial=lambda i, o: bool(i[2]) and bool(i[0]))
+    for (lg, nid, mark), got in zip(gm, gflat):
+        if not isinstance(got, list):
+            continue
+        want_group = None
+        if lg and mark:
+            want_group = mark[0][0] if mark[0] else (mark[1][0] if mark[1] else "default")
+        if want_group is not None and "@" not in want_group and "]" not in want_group:
+            if got[1] != want_group:      # the documented contract: tests marked with one group share one key
+                out.report({"kind": "group-key-wrong", "function": "worker-mark+loadgroup", "class": "marked-test-not-keyed-by-its-group"},
+                           {"nodeid": nid, "mark": mark, "worker_id": got[0], "key": got[1], "expected": want_group},
+                           {"function": "groupmark", "case": [lg, nid, mark]})
+        if not lg or not mark:
+            if got[0] != nid:
+                out.report({"kind": "unmarked-id-changed"}, {"nodeid": nid, "got": got[0]}, {"function": "groupmark", "case": [lg, nid, mark]})
     corr.finish_incoq("C06-split")
     model.close()
 
@@ -79,8 +107,14 @@ def interleaved_crash_jobs(rnd, prof, tier):
             for i in range(nc + 1):
                 ids += ["m.py::a%d@ga" % i, "m.py::b%d@gb" % i]
             ids = ids[:-1] + ["n.py::u%d@gn" % i for i in range(nb)]
+        if r2.random() < 0.4:
+            # one LARGE group dying early: the remainder (several tests) must come back whole and in collection order
+            mode = r2.choice(["loadscope", "loadfile", "loadgroup"])
+            sfx = "@big" if mode == "loadgroup" else ""
+            ids = ["m.py::TestBig::t%02d%s" % (i, sfx) for i in range(r2.randint(5, 9))] + \
+                  ["n.py::u%d%s" % (i, "@gn" if mode == "loadgroup" else "") for i in range(r2.randint(2, 5))]
         cfg = drive_sim.make_cfg(r2, {"profile": "crash", "mode": mode})
-        small = [i for i, t in enumerate(ids) if t.startswith("m.py")]
+        small = [i for i, t in enumerate(ids) if t.startswith("m.py")][:4]
         cfg.update({"mode": mode, "numnodes": 2, "coll": ids, "overrides": {}, "collreports": {}, "stops": [], "maxfail": 0, "requeue": 0,
                     "max_restart": 8, "reports": [[0] for _ in ids], "durs": [0 for _ in ids], "specs": [0, 0],
                     "crashers": [[r2.randrange(2), r2.choice(small)] for _ in range(r2.randint(1, 2))]})
